@@ -21,7 +21,10 @@ U8 == P("u8")  U16 == P("u16")  U32 == P("u32")  U64 == P("u64")
 H  == StructA("Rust", <<U8, U16>>, <<Plain, AAdd(1)>>)            \* gains a versioned field at 1
 E  == Enum("", <<Var(0, <<>>), Var(0, <<U8>>), Var(2, <<>>)>>)    \* gains a variant at 2
 
-Mth(name, args, ret, asy) == [name |-> name, args |-> args, ret |-> ret, asy |-> asy]
+\* nest: the method additionally takes a boxed object of a NESTED exported interface  Lis { fn on(&self, p1, .., pn) }
+\*       whose parameter types are these histories  (<<>> = no such argument)
+Mth(name, args, ret, asy) == [name |-> name, args |-> args, ret |-> ret, asy |-> asy, nest |-> <<>>]
+MthN(name, nest) == [Mth(name, <<>>, U8, FALSE) EXCEPT !.nest = nest]
 Rev(id, latest, ms) == [id |-> id, latest |-> latest, ms |-> ms]
 Add   == Mth("add", <<U32, U32>>, U32, FALSE)
 Get   == Mth("get", <<H>>, U8, FALSE)
@@ -40,17 +43,22 @@ B4 == Rev("b4", 1, <<Mth("add", <<U32, U32>>, U64, FALSE), Get, En>>)     \* ret
 B5 == Rev("b5", 2, <<Add, Mth("get", <<StructA("Rust", <<U8, U16>>, <<Plain, Plain>>)>>, U8, FALSE), En, Extra>>)  \* field added WITHOUT a version
 A0 == Rev("a0", 0, <<AAddM>>)                                   \* async interface
 A1 == Rev("a1", 1, <<AAddM, AMore>>)
-Revs == {R0, R1, R2, B1, B2, B3, B4, B5, A0, A1}
+\* an interface whose method takes an object of a nested interface that uses the evolving type H
+N0 == Rev("n0", 0, <<Add, MthN("sub", <<H>>)>>)
+N1 == Rev("n1", 1, <<Add, MthN("sub", <<H>>)>>)                    \* H gains its versioned field: compatible
+NB == Rev("nb", 1, <<Add, MthN("sub", <<U32>>)>>)                  \* the nested method's parameter type changes: breaking
+Revs == {R0, R1, R2, B1, B2, B3, B4, B5, A0, A1, N0, N1, NB}
 
 \* successor relation: compatible evolution / breaking change
-Compat   == {<<R0, R1>>, <<R1, R2>>, <<R0, R2>>, <<A0, A1>>}
-Breaking == {<<R0, B1>>, <<R1, B1>>, <<R0, B2>>, <<R0, B3>>, <<R0, B4>>, <<R1, B5>>, <<R2, B5>>, <<R1, B2>>}
+Compat   == {<<R0, R1>>, <<R1, R2>>, <<R0, R2>>, <<A0, A1>>, <<N0, N1>>}
+Breaking == {<<R0, B1>>, <<R1, B1>>, <<R0, B2>>, <<R0, B3>>, <<R0, B4>>, <<R1, B5>>, <<R2, B5>>, <<R1, B2>>, <<N0, NB>>, <<N1, NB>>}
 
 \* the definition of revision r as seen at version v: schemas of the argument / return types AT v
 Def(r, v) == [n \in 1..Len(r.ms) |->
                 [name |-> r.ms[n].name, asy |-> r.ms[n].asy,
                  args |-> [k \in 1..Len(r.ms[n].args) |-> Erase(SchemaOf(r.ms[n].args[k], v))],
-                 ret |-> Erase(SchemaOf(r.ms[n].ret, v))]]
+                 ret |-> Erase(SchemaOf(r.ms[n].ret, v)),
+                 nest |-> [k \in 1..Len(r.ms[n].nest) |-> Erase(SchemaOf(r.ms[n].nest[k], v))]]]
 \* what a stored definition retains of the definition that was written
 Stored(d) == d
 
@@ -62,6 +70,8 @@ BackCompat(new, old) ==
             /\ Len(new[n].args) = Len(old[o].args)
             /\ ~Diff(new[n].ret, old[o].ret)
             /\ \A k \in 1..Len(old[o].args) : ~Diff(new[n].args[k], old[o].args[k])
+            /\ Len(new[n].nest) = Len(old[o].nest)
+            /\ \A k \in 1..Len(old[o].nest) : ~Diff(new[n].nest[k], old[o].nest[k])
 
 VARIABLES hist,     \* the revisions still to run (sequence)
           dir,      \* version -> stored definition (function on a set of versions)
@@ -74,7 +84,7 @@ NoRev == Rev("none", -1, <<>>)
 
 Chains == {<<a>> : a \in Revs}
           \cup {<<a, b>> : a \in Revs, b \in Revs}
-          \cup {<<a, b, c>> : a \in {R0, A0}, b \in {R0, R1, A0, A1}, c \in Revs}
+          \cup {<<a, b, c>> : a \in {R0, A0, N0}, b \in {R0, R1, A0, A1, N0, N1}, c \in Revs}
 Related(a, b) == a = b \/ <<a, b>> \in Compat \/ <<a, b>> \in Breaking
 ValidChain(c) == \A n \in 1..(Len(c) - 1) : Related(c[n], c[n + 1])
 
@@ -119,5 +129,6 @@ RevExport == (cur = NoRev /\ done = <<>> /\ Len(hist) = 1) =>
                    methods |-> [n \in 1..Len(hist[1].ms) |->
                        [name |-> hist[1].ms[n].name, asy |-> hist[1].ms[n].asy,
                         args |-> [k \in 1..Len(hist[1].ms[n].args) |-> DefAt(hist[1].ms[n].args[k], hist[1].latest)],
-                        ret |-> DefAt(hist[1].ms[n].ret, hist[1].latest)]]]))
+                        ret |-> DefAt(hist[1].ms[n].ret, hist[1].latest),
+                        nest |-> [k \in 1..Len(hist[1].ms[n].nest) |-> DefAt(hist[1].ms[n].nest[k], hist[1].latest)]]]]))
 =============================================================================
